@@ -336,14 +336,14 @@ T_CALLS = {
 }
 _tg, _te = _thr.make(T_CALLS, ['geodepy/transform.py', 'geodepy/constants.py'], 'transform:mga:threads',
                      quick=['fwd_53', 'back_53', 'fwd_55_col', 'fwd_59'], triple=('fwd_53', 'back_53', 'back_50_noh'),
-                     files_thorough=['geodepy/convert.py'])
+                     files_thorough=['geodepy/convert.py'], parts=4)
 
 
 SUBCHECKS = [
     Sub('constants', gen_const, ev_const, chunk=1, floor=1, parallel=False),
     Sub('grid', gen, ev, chunk=2, floor=500, guard=True, envs=4),
     Sub('covariance', gen_cov, ev_cov, chunk=1, floor=50, guard=True, envs=2),
-    Sub('threads', _tg, _te, chunk=1, floor=3, poison=False),
+    Sub('threads', _tg, _te, chunk=1, floor=3, poison=False, fresh=True),
 ]
 
 
